@@ -75,7 +75,7 @@ def run(tier, rep):
     rep.add(traces_validated_against_impl=o["order2_chains"] + o["janus_roundtrips"], evaluations=o["order2_steps"] + o["janus_roundtrips"],
             distinct_nontrivial=o["order2_chains"] + o["janus_roundtrips"],
             rule="order-2 chains of the TLC model (initial state x force table) replayed step by step; real round trips per (order, scales, N, steps); non-trivial = the state moved", exhaustive=False)
-    rep.cov.update({"order2_chains_replayed": o["order2_chains"], "janus_roundtrips": o["janus_roundtrips"], "sampled_roundtrip_errors": o.get("worst_roundtrip_error", {})})
+    rep.cov.update({"order2_chains_replayed": o["order2_chains"], "janus_roundtrips": o["janus_roundtrips"], "janus_removals": o.get("janus_removals"), "sampled_roundtrip_errors": o.get("worst_roundtrip_error", {})})
     rep.sample({"kind": "order-2 model rows", "rows": rows[:4]})
     for v in o["violations"]:
         k = v["kind"]
@@ -83,6 +83,9 @@ def run(tier, rep):
             key = "janus-roundtrip:o%s:%s:%s" % (v["order"], v["scale_pos"], v["scale_vel"])
             desc = "JANUS order %s, scale_pos %s, scale_vel %s, N=%s: %s steps forward and back do not return the initial bits (differing components %s; moved=%s)" % (
                 v["order"], v["scale_pos"], v["scale_vel"], v["N"], v["steps"], v["differing_components"], v["moved"])
+        elif k == "janus-removal":
+            key = "janus-removal:o%s:%s" % (v["order"], v["removed"])
+            desc = "JANUS order %s, scale %s: after removing a particle (%s) the run differs from a fresh JANUS simulation of the same particles by %s" % (v["order"], v["scale"], v["removed"], v["max_difference"])
         elif k.startswith("order2"):
             key = "%s:t%s" % (k, v["table"])
             desc = "order-2 JANUS with force table %s from (x,v)=(%s,%s): real integer state %s, model %s (%s)" % (v["table"], v["x0"], v["v0"], v["got"], v["want"], v.get("after", "after the return"))
